@@ -635,7 +635,19 @@ func (w *C11World) finalRules(mk func(rule, sig, d string) *Violation) {
 	// later than MaxResponseTime after that (the timer is armed before the request is handed to the connection; the
 	// clock of this family only moves when everything is quiescent, so a fired timer's effects are complete before
 	// the clock moves again). Not judged when the link stalled: a write parked in the transport cannot be called back.
+	// (p) MaxResponseTime never ends a request early: a call that returns the timeout error has lasted at least that long
+	// (the timer is armed inside the call). A timer left running by an earlier request on the same pooled context
+	// would fire early.
 	if M := w.plan.MaxResponseTime; M > 0 {
+		for k, c := range w.callers {
+			for _, r := range c.results {
+				if r.err == http2.ErrRequestCanceled.Error() && r.to-r.from < M {
+					mk("timeout-premature", "timeout-premature", fmt.Sprintf("RoundTrip for request %d returned %q %v after it was called; MaxResponseTime is %v", k, r.err, r.to-r.from, M))
+				}
+			}
+		}
+	}
+	if M := w.plan.MaxResponseTime; M > 0 && w.plan.Strategy.TimeRace == 0 {
 		for k, c := range w.callers {
 			for _, r := range c.results {
 				var last *c11Attempt
@@ -698,7 +710,15 @@ func (w *C11World) finalRules(mk func(rule, sig, d string) *Violation) {
 		last := at[len(at)-1]
 		// (a kill may have cut the answer on the wire: only connections that were never killed are judged here)
 		if last.answered == 2 && last.disclaimed == "" && !w.conns[last.conn].killedByPlan && !w.conns[last.conn].stallDone {
-			if c.finalErr != nil {
+			lateOK := false
+			if w.plan.Strategy.TimeRace > 0 && len(c.results) > 0 {
+				// the clock of this family moves while the client is at work: an answer that was sent in time may be read too late
+				r := c.results[len(c.results)-1]
+				lateOK = r.err == http2.ErrRequestCanceled.Error() && r.to-r.from >= w.plan.MaxResponseTime
+			}
+			if c.finalErr != nil && lateOK {
+				w.Probes["timeout-legit"]++
+			} else if c.finalErr != nil {
 				conn := w.conns[last.conn]
 				ga := "no GOAWAY"
 				if conn.goAwaySent {
@@ -805,6 +825,33 @@ func GenC11Stalled(r *RNG) *C11Plan {
 	return p
 }
 
+// GenC11Timed: requests in sequence on pooled contexts while the clock moves in steps well below MaxResponseTime: the
+// timeout of one request must not reach the next one.
+func GenC11Timed(r *RNG) *C11Plan {
+	M := time.Second
+	p := &C11Plan{Family: "c11-timed", MaxResponseTime: M, PingInterval: time.Hour}
+	n := 4 + r.Intn(7)
+	for k := 0; k < n; k++ {
+		q := C11Req{Method: Pick(r, "GET", "GET", "POST"), StartAfter: -1}
+		if q.Method == "POST" {
+			q.Body = Pick(r, 1, 100, 5000)
+		}
+		if k > 0 && r.Intn(6) != 0 {
+			q.StartAfter = k - 1 // one after the other: the context of the earlier call is back in the pool
+		}
+		p.Reqs = append(p.Reqs, q)
+	}
+	p.Conns = []C11ConnScript{{MaxStreams: Pick(r, int64(-1), 100), Partial: r.Intn(2) == 0}}
+	p.Mask = genMask(r)
+	p.PoolPol = r.Intn(3)
+	p.Strategy = genStrategy(r)
+	p.Strategy.TimeRace = Pick(r, 0.005, 0.01, 0.03)
+	p.Strategy.TimeSteps = []time.Duration{M / 4, M / 3, M / 10, M / 2}
+	p.SelSeed = r.Uint64()
+	p.Frag = r.Intn(3) == 0
+	return p
+}
+
 func RunC11(plan *C11Plan, tape *Tape, searchSeed uint64) *RunResult {
 	res := &RunResult{Property: "C11", Family: plan.Family}
 	sim := NewSim(tape, NewRNG(searchSeed))
@@ -812,7 +859,7 @@ func RunC11(plan *C11Plan, tape *Tape, searchSeed uint64) *RunResult {
 	ok := func() bool { return sim.Viol == nil && sim.Steps < sim.MaxSteps }
 	// workload to quiescence, no clock movement: GOAWAY effects must not need a timeout
 	for round := 0; round < 6 && ok(); round++ {
-		sim.RunPhase(w, 0, false)
+		sim.RunPhase(w, 0, plan.Strategy.TimeRace > 0)
 		if !ok() {
 			break
 		}
@@ -881,7 +928,7 @@ func RunC11(plan *C11Plan, tape *Tape, searchSeed uint64) *RunResult {
 			nGA++
 		}
 	}
-	res.Nontrivial = nGA > 0 || w.Probes["refused"] > 0 || w.Probes["kill"] > 0
+	res.Nontrivial = nGA > 0 || w.Probes["refused"] > 0 || w.Probes["kill"] > 0 || (plan.Family == "c11-timed" && sim.TimeJumps > 3)
 	res.Probes = w.Probes
 	res.Summary = fmt.Sprintf("conns=%d callers=%d", len(w.conns), len(w.callers))
 	sim.finish(res)
